@@ -585,7 +585,7 @@ end
 mutual
   /-- The key texts of all descendants: `str(key)` under label-style parents, the summary name
   (`key` or `[index]`) under summary-style parents. With `onlyShown` the summary-style keys of
-  children that get no summary are left out (finding F33). -/
+  children that get no summary are left out (finding F49). -/
   def keyTextsOf (onlyShown : Bool) (c : Ctx) : Tree → List Str
     | .leaf .. => []
     | .node _ _ kind _ children =>
